@@ -181,6 +181,145 @@ def r06_3(rep: Report) -> None:
         raise AnalysisError('calculate_first_and_last_segment_number: static branch not found')
 
 
+# ---------------------------------------------------------------- R06.4 indexer running clock
+# One iteration of the indexer's moof branch is evaluated over linear forms in E0 (running end
+# before the fragment), D (sum of the fragment's sample durations) and T (the fragment's tfdt).  The
+# summation loop `for sample in ...trun.samples: X += sample.duration` is the single step X += D.
+def _lin_eval(e: ast.AST, env: dict) -> dict | None:
+    if isinstance(e, ast.Constant) and isinstance(e.value, int) and not isinstance(e.value, bool):
+        return {'1': e.value} if e.value else {}
+    t = norm(e)
+    if t.endswith('base_media_decode_time'):
+        return {'T': 1}
+    if t in env:
+        v = env[t]
+        return dict(v) if v is not None else None
+    if isinstance(e, ast.BinOp) and isinstance(e.op, (ast.Add, ast.Sub)):
+        a, b = _lin_eval(e.left, env), _lin_eval(e.right, env)
+        if a is None or b is None:
+            return None
+        sg = 1 if isinstance(e.op, ast.Add) else -1
+        out = dict(a)
+        for k, v in b.items():
+            out[k] = out.get(k, 0) + sg * v
+        return {k: v for k, v in out.items() if v}
+    return None
+
+
+def _fmt(v: dict | None) -> str:
+    if v is None:
+        return '?'
+    if not v:
+        return '0'
+    return ' + '.join((k if c == 1 else f'{c}*{k}') if k != '1' else str(c) for k, c in sorted(v.items()))
+
+
+def _run_block(stmts: list[ast.stmt], envs: list[tuple[dict, tuple]], tracked: set[str]) -> list[tuple[dict, tuple]]:
+    for st in stmts:
+        nxt: list[tuple[dict, tuple]] = []
+        for env, path in envs:
+            if isinstance(st, ast.If):
+                lab = norm(st.test)
+                a = _run_block(st.body, [(dict(env), path + ((lab, True),))], tracked)
+                b = _run_block(st.orelse, [(dict(env), path + ((lab, False),))], tracked)
+                nxt.extend(a + b)
+                continue
+            if isinstance(st, ast.For):
+                sums = [x for x in ast.walk(st) if isinstance(x, ast.AugAssign) and isinstance(x.op, ast.Add)
+                        and norm(x.value) == f'{norm(st.target)}.duration']
+                env = dict(env)
+                touched = {norm(x.target) for x in ast.walk(st) if isinstance(x, ast.AugAssign)} | \
+                          {norm(t) for x in ast.walk(st) if isinstance(x, ast.Assign) for t in x.targets}
+                if norm(st.iter).endswith('trun.samples'):
+                    for x in sums:
+                        tn = norm(x.target)
+                        if tn in tracked:
+                            cur = env.get(tn)
+                            env[tn] = None if cur is None else {
+                                k: v for k, v in {**cur, 'D': cur.get('D', 0) + 1}.items() if v}
+                            touched.discard(tn)
+                for tn in touched & tracked:
+                    env[tn] = None
+                nxt.append((env, path))
+                continue
+            if isinstance(st, ast.Try):
+                nxt.extend(_run_block(st.body, [(dict(env), path)], tracked))
+                continue
+            env = dict(env)
+            if isinstance(st, ast.Assign) and len(st.targets) == 1 and norm(st.targets[0]) in tracked:
+                env[norm(st.targets[0])] = _lin_eval(st.value, env)
+            elif isinstance(st, ast.AugAssign) and norm(st.target) in tracked:
+                cur = env.get(norm(st.target))
+                add = _lin_eval(st.value, env)
+                if cur is None or add is None or not isinstance(st.op, (ast.Add, ast.Sub)):
+                    env[norm(st.target)] = None
+                else:
+                    sg = 1 if isinstance(st.op, ast.Add) else -1
+                    out = dict(cur)
+                    for k, v in add.items():
+                        out[k] = out.get(k, 0) + sg * v
+                    env[norm(st.target)] = {k: v for k, v in out.items() if v}
+            else:
+                for x in ast.walk(st):
+                    if isinstance(x, (ast.Assign, ast.AugAssign, ast.AnnAssign)):
+                        for t in (x.targets if isinstance(x, ast.Assign) else [x.target]):
+                            if norm(t) in tracked:
+                                env[norm(t)] = None
+            nxt.append((env, path))
+        envs = nxt
+    return envs
+
+
+def r06_4(rep: Report) -> None:
+    """the indexer's running clock: a fragment without a tfdt starts where the previous one ended,
+    a fragment with one starts at its tfdt; either way it ends at start + the sum of its sample
+    durations, and that sum is its stored duration.  (The decode times the manifests advertise and
+    the $Time$ lookup both come from these three assignments.)"""
+    rid = 'R06.4'
+    tree = rep.repo.tree(REP)
+    cls = need(find_class(tree, 'Representation'), 'Representation')
+    fn = need(find_func(cls, 'load'), 'Representation.load')
+    construct = f'{REP}::Representation.load'
+    branch = None
+    for n in ast.walk(fn):
+        if isinstance(n, ast.If) and norm(n.test) == "atom.atom_type == 'moof'":
+            branch = n
+    if branch is None:
+        raise AnalysisError("Representation.load: the `atom.atom_type == 'moof'` branch was not found")
+    tracked = {'segment_start_time', 'segment_end_time', 'dur', 'seg.duration'}
+    env0 = {'segment_end_time': {'E0': 1}, 'segment_start_time': {'S0': 1}, 'dur': None, 'seg.duration': None}
+    outs = _run_block(branch.body, [(env0, ())], tracked)
+    seen = set()
+    for env, path in outs:
+        tf = [truth for lab, truth in path if lab.replace(' ', '') in ('tfdtisNone',)]
+        tf2 = [not truth for lab, truth in path if lab.replace(' ', '') in ('tfdtisnotNone',)]
+        no_tfdt = (tf + tf2 or [None])[0]
+        if no_tfdt is None:
+            continue
+        label = 'no tfdt' if no_tfdt else 'tfdt'
+        if label in seen:
+            continue
+        seen.add(label)
+        want_start = {'E0': 1} if no_tfdt else {'T': 1}
+        want_end = {**want_start, 'D': 1}
+        start, end, sdur = env.get('segment_start_time'), env.get('segment_end_time'), env.get('seg.duration')
+        for what, got, want in (('start', start, want_start), ('end', end, want_end), ('duration', sdur, {'D': 1})):
+            key = f'{label}: {what}'
+            if got is None:
+                rep.note(f'R06.4: {key} has a form the evaluator does not follow - not decided')
+                rep.ok(rid, construct, key, 'not decided')
+            elif got == want:
+                rep.ok(rid, construct, key, f'{what} = {_fmt(got)}')
+            else:
+                rep.fail(rid, construct, key,
+                         f'for a fragment with {label} the indexer leaves segment {what} = {_fmt(got)} '
+                         f'(E0: end of the previous fragment, D: this fragment\'s sample durations, T: its '
+                         f'tfdt); it must be {_fmt(want)}: the indexed start time and segment duration '
+                         'no longer describe the stored fragments', branch)
+    if seen != {'no tfdt', 'tfdt'}:
+        raise AnalysisError(f'Representation.load: tfdt / no-tfdt paths not both found ({sorted(seen)})')
+
+
 def analyse(rep: Report) -> None:
     rep.explanation = (
         'Conventions that the static manifests and the media endpoint must share: the inclusive '
@@ -191,6 +330,8 @@ def analyse(rep: Report) -> None:
     rep.rule('R06.1', 'inclusive byte-range convention agrees between writer and readers', floor=5)
     rep.rule('R06.2', 'declared static duration comes from the timing reference only', floor=11)
     rep.rule('R06.3', 'numbers outside first..last are refused on every path', floor=3)
+    rep.rule('R06.4', 'indexer clock: start = previous end or tfdt, end = start + sample durations', floor=6)
     r06_1(rep)
     r06_2(rep)
     r06_3(rep)
+    r06_4(rep)
